@@ -276,3 +276,128 @@ def selftest():
     log("selftest: see tools/selftest.py")
     import selftest as st
     return st.main()
+
+# ------------------------------------------------------------------------------------------------
+# function-level properties (D3): TLC generates the abstract case product, the direct-API driver
+# runs every case against the real Response code, TLC judges every observation
+
+FN_PROPS = {
+    "C04": dict(gen="genC04", rule="full product status x body length x declared x threshold x version x HEAD x TE x reader piece size (MC_Fn!C04Cases), written by TLC; every case run through Response::raw_print and parsed by the harness's independent client parser; distinct = distinct abstract cases"),
+    "C05": dict(gen="genC05", rule="full product version x status class x length class x threshold x TE header (all entries, pairs, triples per tier) x HEAD/upgrade (MC_Fn!C05Cases), written by TLC; decision table checked against the statement's clauses and the code-shaped transcription over the whole domain; distinct = distinct abstract cases"),
+    "C19": dict(gen="genC19", rule="header lists over eleven name classes x entry route x letter case (MC_Fn!C19Cases) plus the constructors, written by TLC; distinct = distinct abstract cases"),
+}
+
+def fn_tlc(mode, tier, out, obs, name, timeout=1800):
+    env = {"FN_MODE": mode, "FN_TIER": tier, "FN_OUT": out, "FN_OBS": obs}
+    rc, o, wall = vlib.tlc(name, "MC_Fn.cfg", "MC_Fn.tla", os.path.join(SPECS, "mc"), workers=1, timeout=timeout, env=env,
+                           java_opts="-Xmx12g -Xss1g")
+    if "Model checking completed. No error has been found" not in o:
+        raise ToolError("MC_Fn (%s) failed:\n%s" % (mode, o[-3000:]))
+    return o, wall
+
+def run_fn_check(prop, tier, seed):
+    t0 = time.time()
+    cfg = FN_PROPS[prop]
+    wdir = os.path.join(WORK, prop)
+    shutil.rmtree(wdir, ignore_errors=True)
+    os.makedirs(wdir, exist_ok=True)
+    vlib.build(("d1",))
+    findings = vlib.load_findings()
+    tlc_results = []
+    states = 0
+    if prop == "C05":
+        o, wall = fn_tlc("domain", tier, "/dev/null", "/dev/null", "fn_domain")
+        m = re.search(r'<<"DOMAIN-OK", (\d+)>>', o)
+        if not m:
+            raise ToolError("domain check gave no result:\n" + o[-2000:])
+        states += int(m.group(1))
+        tlc_results.append({"config": "MC_Fn domain (NeverChunkedOld, NeverChunked1xx204, ThresholdRule, ChooseAgrees over C05Cases)", "cases": int(m.group(1)), "result": "ok", "wall_s": round(wall, 1)})
+        log("[tlc] decision table checked on %s abstract cases (%.1fs)" % (m.group(1), wall))
+    cases = os.path.join(wdir, "cases.ndjson")
+    o, wall = fn_tlc(cfg["gen"], tier, cases, "/dev/null", "fn_gen")
+    ncases = int(re.search(r'<<"GEN", (\d+)>>', o).group(1))
+    tlc_results.append({"config": "MC_Fn " + cfg["gen"], "cases": ncases, "result": "ok", "wall_s": round(wall, 1)})
+    log("[gen] %d abstract cases written by TLC (%.1fs)" % (ncases, wall))
+    # run the cases in parallel shards
+    lines = open(cases).read().splitlines()
+    nsh = 12
+    import concurrent.futures as cf
+    def runshard(i):
+        sp = os.path.join(wdir, "cases.%d.ndjson" % i)
+        op = os.path.join(wdir, "obs.%d.ndjson" % i)
+        with open(sp, "w") as f:
+            f.write("\n".join(lines[i::nsh]) + "\n")
+        rc, out = vlib.sh([vlib.D1, "fn", "--cases", sp, "--out", op, "--prop", prop, "--seed", str(seed * 100 + i)], timeout=1800,
+                          env={"VERIF_TMP": wdir})
+        if rc != 0:
+            raise ToolError("direct-API driver failed: " + out[-1500:])
+        return op
+    with cf.ThreadPoolExecutor(max_workers=nsh) as ex:
+        obsfiles = list(ex.map(runshard, range(nsh)))
+    # judge: TLC evaluates the guards on every observation (chunks in parallel)
+    allobs = []
+    for op in obsfiles:
+        allobs += open(op).read().splitlines()
+    # the C19 constructor cases are appended by every shard: keep one copy
+    seen = set()
+    uniq = []
+    for l in allobs:
+        key = l if '"C19-ctor-' not in l else re.sub(r'"datevalid":(true|false),', "", l)
+        if '"C19-ctor-' in l:
+            k2 = re.search(r'"id":"(C19-ctor-[^"]*)"', l).group(1)
+            if k2 in seen:
+                continue
+            seen.add(k2)
+        uniq.append(l)
+    allobs = uniq
+    chunk = 20000
+    chunks = [allobs[i:i + chunk] for i in range(0, len(allobs), chunk)]
+    def judge(i):
+        p = os.path.join(wdir, "judge.%d.ndjson" % i)
+        open(p, "w").write("\n".join(chunks[i]) + "\n")
+        o, wall = fn_tlc("check", tier, "/dev/null", p, "fn_check_%s_%d" % (prop, i))
+        done = re.search(r'<<"DONE", (\d+)>>', o)
+        if not done or int(done.group(1)) != len(chunks[i]):
+            raise ToolError("observation check incomplete:\n" + o[-2000:])
+        return re.findall(r'<<"VIOL", "([^"]*)", (\d+), "(\w+)", "(\w+)">>', o), i
+    viols = []
+    with cf.ThreadPoolExecutor(max_workers=6) as ex:
+        for vs, i in ex.map(judge, range(len(chunks))):
+            for (cid, idx, p, g) in vs:
+                viols.append({"x": cid, "line": int(idx), "prop": p, "guard": g, "obs": json.loads(chunks[i][int(idx) - 1])})
+    mine = [v for v in viols if v["prop"] == prop]
+    os.makedirs(os.path.join(wdir, "replay"), exist_ok=True)
+    violations = []
+    known_seen = {}
+    seen_sig = set()
+    for v in mine:
+        f = vlib.match_finding(v, {"tags": []}, findings)
+        if f is not None:
+            known_seen.setdefault(f["id"], {"finding": f, "count": 0, "example": v["x"]})
+            known_seen[f["id"]]["count"] += 1
+            continue
+        sig = (v["guard"], json.dumps({k: v["obs"]["case"].get(k) for k in ("ver", "st", "status", "len", "thr", "head", "upg", "route")}, sort_keys=True))
+        if sig in seen_sig or len(violations) >= 25:
+            continue
+        seen_sig.add(sig)
+        rp = os.path.join(wdir, "replay", v["x"] + ".json")
+        json.dump({"property": prop, "case_id": v["x"], "guard": v["guard"], "observation": v["obs"], "kind": "fn"}, open(rp, "w"), indent=1)
+        violations.append(("impl", "%s: %s" % (v["x"], v["guard"]), rp))
+    samples = [json.loads(l) for l in allobs[:3]]
+    coverage = {
+        "states": max(states, ncases), "transitions": len(allobs), "traces_validated_against_impl": len(allobs),
+        "samples": samples, "evaluations": len(allobs), "distinct_nontrivial": ncases, "rule": cfg["rule"],
+        "exhaustive": True, "tlc_configs": tlc_results, "cases_generated_by_tlc": ncases, "observations_judged_by_tlc": len(allobs),
+        "violating_observations": len(mine),
+        "explanation": "states = abstract cases enumerated by TLC; transitions / traces_validated = observations of the real code judged by TLC (one per case)",
+        "known_findings_seen": {k: v["count"] for k, v in known_seen.items()},
+    }
+    vlib.write_evidence(prop, tier, seed, "model_checking", coverage, time.time() - t0, len(violations),
+                        ["class-exhaustive over the abstract domain; bytes inside a class are seeded samples", "the harness's client parser (harness/common/src/httpc.rs) is the reference for well-formedness"])
+    for k, v in known_seen.items():
+        print("KNOWN-FINDING: property=%s %s (%s; %d cases, e.g. %s)" % (prop, v["finding"]["what_fails"], k, v["count"], v["example"]))
+    for kind, desc, path in violations:
+        print("VIOLATION property=%s replay=%s" % (prop, path))
+        log("  (%s) %s" % (kind, desc))
+    log("[done] %s tier=%s: %d cases, %d violating observations, %.1fs" % (prop, tier, len(allobs), len(mine), time.time() - t0))
+    return 1 if violations else 0
